@@ -1,6 +1,7 @@
 """C11 - tick = fold readings in order, hold at last reading, report at output time."""
 from __future__ import annotations
 
+import math
 import random
 
 import z3
@@ -55,14 +56,31 @@ def native_tick(t0, mx, control_size, ticks):
                 else:
                     rs.append(runtime.StampedReading(ts, key, v=ts))
         refused = control is None and control_size > 0
+        poisoned = any(key == "missing" for _, key, _ in (readings or []))
         try:
             out = mf.tick(t_out, control=control, readings=rs)
+        except KeyError as e:
+            # a reading for a sensor the wrapped filter does not have: the filter's own refusal passes through.  Whatever the
+            # managed filter keeps (the estimate moved up to the refused reading, or the estimate before the tick), what it holds
+            # must stay CONSISTENT: the held estimate is the estimate at the held time (C10: later moves cover the true difference)
+            if not poisoned:
+                return False, f"unexpected KeyError {e!r}", impl.calls
+            st = mf.state
+            if mf.covariance != st or st[: len(held_s)] != held_s:
+                return False, f"after a refused reading the held state/covariance are not an extension of the held estimate: {st}", impl.calls
+            t_of_state = t0 + math.fsum(x[1] for x in st if x[0] == "pm")
+            if not abs(t_of_state - mf.current_time) <= 1e-9 * (len(st) + 1) + 4 * math.ulp(max(abs(t0), abs(mf.current_time), 1.0)):
+                return False, f"after a reading was refused (unknown sensor) the filter holds time {mf.current_time!r} but its estimate has been moved to {t_of_state!r}: the next tick propagates over the wrong interval", impl.calls
+            held_t, held_s = mf.current_time, st
+            continue
         except TypeError as e:
             if refused and not impl.calls and (mf.current_time, mf.state) == (held_t, held_s):
                 continue
             return False, f"unexpected TypeError {e!r} (calls so far {impl.calls})", impl.calls
         if refused:
             return False, "tick without control accepted although control_size > 0", impl.calls
+        if poisoned:
+            return False, "a reading for a sensor the wrapped filter refuses (KeyError) was swallowed", impl.calls
         calls = list(impl.calls)
         pos = 0
         exp_state = held_s
@@ -113,7 +131,18 @@ def scenario_from_model(model, variant):
             return v.numerator_as_long() / v.denominator_as_long()
         return 0.0
 
-    readings = [(num(ts(i)), f"k{i}", not z3.is_true(model.eval(nod(i), model_completion=True))) for i in range(n)]
+    keyf = z3.Function("rd_key", z3.IntSort(), rt.Key)
+
+    def key_name(i):
+        # a sensor the counter-model's wrapped filter refuses becomes the recording filter's unknown sensor
+        try:
+            if z3.is_true(model.eval(rt.refuses_key(keyf(z3.IntVal(i))), model_completion=True)):
+                return "missing"
+        except z3.Z3Exception:
+            pass
+        return f"k{i}"
+
+    readings = [(num(ts(i)), key_name(i), not z3.is_true(model.eval(nod(i), model_completion=True))) for i in range(n)]
     t0, t_out, mx = num(z3.Real("t0")), num(z3.Real("t_out")), num(z3.Real("max_dt_sec"))
     cs = int(num(z3.Int("control_size")))
     control = None if "control_none" in variant else "u"
@@ -168,7 +197,8 @@ def random_history(rng):
         if rng.random() < 0.2:
             rs = None
         else:
-            rs = [(base + round(rng.uniform(-1.5, 1.5), 3), rng.choice(["a", "b"]), rng.random() < 0.5) for _ in range(rng.randint(0, 3))]
+            # one reading in ten is for a sensor the wrapped filter refuses (KeyError): the filter is then USED AGAIN
+            rs = [(base + round(rng.uniform(-1.5, 1.5), 3), rng.choice(["a", "b"] if rng.random() < 0.9 else ["missing"]), rng.random() < 0.5) for _ in range(rng.randint(0, 3))]
         ticks.append((t_out, control, rs))
     return t0, mx, cs, ticks
 
@@ -195,7 +225,7 @@ def native_sweep(run, n):
             if mode < 0.2:
                 rs = None
             else:
-                rs = [((t0 + rng.randint(-6, 6) * mx + off()) if (base and rng.random() < 0.5) else base + round(rng.uniform(-1.5, 1.5), 3), rng.choice(["a", "b"]), rng.random() < 0.5) for _ in range(rng.randint(0, 3))]
+                rs = [((t0 + rng.randint(-6, 6) * mx + off()) if (base and rng.random() < 0.5) else base + round(rng.uniform(-1.5, 1.5), 3), rng.choice(["a", "b"] if rng.random() < 0.9 else ["missing"]), rng.random() < 0.5) for _ in range(rng.randint(0, 3))]
             ticks.append((t_out, control, rs))
         run.native_runs += 1
         ok, why, calls = native_tick(t0, mx, cs, ticks)
